@@ -145,18 +145,25 @@ def lastLineLen (isBreak : Char → Bool) : List Char → Nat → Nat
   | [], n => n
   | c :: r, n => if isBreak c then lastLineLen isBreak r 0 else lastLineLen isBreak r (n + 1)
 
-def dropBom : List Char → List Char
-  | c :: r => if c = Char.ofNat 0xFEFF then r else c :: r
-  | [] => []
+/-- the characters after the last character satisfying `isBreak` (`acc`: the current line, reversed) -/
+def lastLine (isBreak : Char → Bool) : List Char → List Char → List Char
+  | [], acc => acc.reverse
+  | c :: r, acc => if isBreak c then lastLine isBreak r [] else lastLine isBreak r (c :: acc)
+
+/-- LF, CR or FF: the three characters the lexer turns into a newline token -/
+def isLineBreak (c : Char) : Bool := c == LF || c == CR || c == FF
+
+def BOMc : Char := Char.ofNat 0xFEFF
 
 /-- The column `Serializer::write_comment` subtracts from the indentation of the continuation lines
-    of a loud comment (serializer.rs:1003), for a comment that starts right after the text `pre`.
-    `asFound = true`: the code as it stands — codemap's column, i.e. characters since the last LF of
-    the RAW text, a BOM counted.  `asFound = false`: what the property requires — tokens since the
-    last newline TOKEN, a leading BOM not counted. -/
+    of a loud comment (serializer.rs:997-1011), for a comment that starts right after the text `pre`.
+    `asFound = false`: the code as it is NOW (fix e81c3e6) — characters of the comment's own line,
+    the line starting after the last LF, CR or FF, byte order marks at the start of that line not
+    counted.  `asFound = true`: the variant found on the pinned tree — codemap's column, i.e.
+    characters since the last LF only, a BOM counted (kept for the witness in GrassProofs/C18.lean). -/
 def commentColumn (asFound : Bool) (pre : List Char) : Nat :=
   if asFound then lastLineLen (· == LF) pre 0
-  else lastLineLen (· == LF) (normNL (dropBom pre)) 0
+  else ((lastLine isLineBreak pre []).dropWhile (· == BOMc)).length
 
 /-! ## 3. Scanner results -/
 
